@@ -27,13 +27,16 @@ CLAIMS = {
              "the reference decoder says; 'stream' EOL handling. Object-level parsing (#xx names, n g R look-ahead, containers) is Out.",
         design_ref="§5 C03", note=NOTE, technique=BMC),
     "C04": dict(
-        text="Strings and names only, by composition: (a) for every byte string up to the bound the token PdfString::serialize "
+        text="Strings, names and (inside windows) integers, by composition: (a) for every byte string up to the bound the token PdfString::serialize "
              "writes is decoded to the same bytes by a reference literal/hex string decoder, and for every ASCII name of 1-2 characters "
              "(and every 2-byte UTF-8 character) serialize_name writes a token of regular characters whose #xx decoding is the name; "
              "serialising never panics; (b) the real string lexers agree with the same reference decoders (C03 obligations strlex_*); "
              "(c) for the one byte class the references leave open -- a raw CR inside a literal string -- writer and reader are "
              "checked against each other: if the writer emits CR raw, one reader step at a raw CR returns CR from every lexer state. "
-             "Numbers, arrays, dictionaries, streams and the '#xx' decoding inside the object parser are Out.",
+             "(d) Integer(i) is written as an optional '-' and decimal digits of value i for every 16-bit integer (thorough: every "
+             "24-bit integer and six 2^16 windows at both ends of the i32 range and at digit-count boundaries); true / false / null "
+             "are written as those keywords; references as 'id gen R' (thorough, small ids). "
+             "Reals, integers outside the windows, arrays, dictionaries, streams and the '#xx' decoding inside the object parser are Out.",
         design_ref="§5 C04", note=NOTE, technique=BMC + " (serializer vs reference decoder; composition with the lexer-vs-reference obligations)"),
     "C05": dict(
         text="For every input inside the bounds the real ASCIIHex, ASCII85 and RunLength decoders return what a reference decoder "
